@@ -16,4 +16,4 @@ print({k: v for k, v in sorted(ctx.stats.items())})
 for d in ctx.disagreements[:int(os.environ.get('SHOW', '6'))]:
     print('DISAGREE', d['stream'], d['index'], d['what'][:600])
 for f in ctx.failures[:int(os.environ.get('SHOW', '10'))]:
-    print('FAIL', f['stream'], f['index'], f['signature'], '|', f['what'][:300], '|', str(f.get('planted', ''))[:100])
+    print('FAIL', f['stream'], f['index'], f['signature'], '|', f['what'][:300], '|', str(f.get('detail', {}).get('planted', ''))[:100])
